@@ -28,9 +28,6 @@ From V Require Import Base.Text C10.Model.
 Open Scope N_scope.
 Open Scope list_scope.
 
-Definition ascii_upper (c : char) : bool := (65 <=? c) && (c <=? 90).
-Definition ascii_numeric (c : char) : bool := (48 <=? c) && (c <=? 57).
-Definition cmp15 : tree -> tree -> comparison := tree_cmp ascii_upper ascii_numeric.
 
 (* ------------------------------------------------------------------ *)
 (* printer *)
